@@ -3,7 +3,7 @@
    C f3 f4 f10 f16 method(B|T) maxc family ev...
        ev = D,now,src,dst|~,payloadhex | U,now,src,dst|~,payloadhex | T,now,family,dst | F,ch,payloadhex,ok|<errno>
        -> per step  "OK outs | state"  |  "FATAL"  |  "CRASH X"   joined by " ;; "
-   S f3 f4 f10 f16 to_ns|~ sysns(hex,hex..|~) ev...
+   S f3 f4 f10 f16 f80 to_ns|~ sysns(hex,hex..|~) ev...
        ev = now/frames/ready/io ; frames = ch:cmd:hex:tag,... (cmd Q O D C X) ; ready = sock,... ; io = k|e<errno>|d<hex>|f<hex>@<iphex>@<port>|n<k>
    HDR iphex port payloadhex   -> hex of "ip,port,"+payload
    SPLIT hex                   -> iphex port payloadhex | NONE    (split(b',',2) + int(port))
@@ -19,7 +19,7 @@ let s_of_oaddr = function None -> "~" | Some a -> s_of_addr a
 let exn_str = function XStruct -> "struct.error" | XValue -> "ValueError" | XOSError -> "OSError"
   | XAssert -> "AssertionError" | XKey -> "KeyError" | XUnbound -> "UnboundLocalError"
   | XOverflow -> "OverflowError" | XType -> "TypeError" | XException -> "Exception"
-let fixes_of a b c d = { fx3 = a = "1"; fx4 = b = "1"; fx10 = c = "1"; fx16 = d = "1" }
+let fixes_of a b c d e = { fx3 = a = "1"; fx4 = b = "1"; fx10 = c = "1"; fx16 = d = "1"; fx80 = e = "1" }
 let join = String.concat ","
 let nonempty s = if s = "" then "~" else s
 
@@ -106,13 +106,57 @@ let run_server fx cfg evs =
        | Crash x -> List.rev (("CRASH " ^ exn_str x) :: acc)) in
   String.concat " ;; " (go s_init evs [])
 
+
+(* ---- the two-ended system (Model/DgramSys.v) ----
+   Y f3 f4 f10 f16 f80 method maxc family to_ns|~ sysns ev...
+       ev = A|<client accept event> | S|now/k/ready/io | V|ok|<errno>
+       -> per step  "OK obs | state of the component that ran | U up-link | W down-link"
+          or "FATAL client|server" / "CRASH X client|server" / "STUCK"          *)
+let up_str f = let (((ch, cmd), d), _) = f in
+  Printf.sprintf "%d:%s:%s" (int_of_n ch) (match cmd with FDnsReq -> "Q" | FUdpOpen -> "O" | FUdpData -> "D" | FUdpClose -> "C" | FOther -> "X") (hex_of_bytes d)
+let down_str f = let ((ch, d), _) = f in Printf.sprintf "%d:%s" (int_of_n ch) (hex_of_bytes d)
+let yev_of_s s = match String.split_on_char '|' s with
+  | ["A"; ce] -> YAccept (cev_of_s ce)
+  | ["S"; se] -> (match String.split_on_char '/' se with
+      | [now; k; ready; io] -> YServer (n_of_s now, nat_of_int (int_of_string k), List.map n_of_s (split_on ',' ready), List.map io_of_s (split_on ',' io))
+      | _ -> failwith ("bad system server event " ^ s))
+  | ["V"; sr] -> YDeliver (if sr = "ok" then SendOk else SendErr (n_of_s sr))
+  | _ -> failwith ("bad system event " ^ s)
+let rec take k l = if k <= 0 then [] else match l with [] -> [] | x :: tl -> x :: take (k - 1) tl
+let res_str who = function
+  | Ok _ -> "STUCK" | Fatal -> "FATAL " ^ who | Crash x -> "CRASH " ^ exn_str x ^ " " ^ who
+let why_stuck fx cc sc y e = match e with
+  | YAccept ce -> res_str "client" (cstep fx cc y.y_c ce)
+  | YServer (now, k, ready, io) ->
+    res_str "server" (sstep fx sc y.y_s { se_now = now; se_frames = take (int_of_nat k) y.y_up; se_ready = ready; se_io = io })
+  | YDeliver sr -> (match y.y_down with
+      | [] -> "STUCK"
+      | ((ch, d), _) :: _ -> res_str "client" (cstep fx cc y.y_c (EFrame (ch, d, sr))))
+let run_system fx cc sc evs =
+  let rec go y evs acc = match evs with
+    | [] -> List.rev acc
+    | e :: tl ->
+      (match ystep_fx fx cc sc y e with
+       | Some (y', ob) ->
+         let (obs, st) = (match ob with
+           | ObsClient (_, o) -> (join (List.map cout_str o), cstate_str y'.y_c)
+           | ObsServer o -> (join (List.map sout_str o), sstate_str y'.y_s)) in
+         go y' tl ((Printf.sprintf "OK %s | %s | U %s | W %s" (nonempty obs) st
+                      (nonempty (join (List.map up_str y'.y_up))) (nonempty (join (List.map down_str y'.y_down)))) :: acc)
+       | None -> List.rev (why_stuck fx cc sc y e :: acc)) in
+  String.concat " ;; " (go y_init evs [])
+
 let handle = function
   | "C" :: a :: b :: c :: d :: m :: maxc :: fam :: evs ->
     let cfg = { cc_method = (if m = "T" then MTproxy else MBase); cc_maxc = n_of_s maxc; cc_family = n_of_s fam } in
-    run_client (fixes_of a b c d) cfg (List.map cev_of_s evs)
-  | "S" :: a :: b :: c :: d :: tons :: sysns :: evs ->
+    run_client (fixes_of a b c d "1") cfg (List.map cev_of_s evs)
+  | "S" :: a :: b :: c :: d :: e :: tons :: sysns :: evs ->
     let cfg = { sc_to_ns = oaddr_of_s tons; sc_sysns = List.map bytes_of_hex (split_on ',' sysns) } in
-    run_server (fixes_of a b c d) cfg (List.map sev_of_s evs)
+    run_server (fixes_of a b c d e) cfg (List.map sev_of_s evs)
+  | "Y" :: a :: b :: c :: d :: e :: m :: maxc :: fam :: tons :: sysns :: evs ->
+    let cc = { cc_method = (if m = "T" then MTproxy else MBase); cc_maxc = n_of_s maxc; cc_family = n_of_s fam } in
+    let sc = { sc_to_ns = oaddr_of_s tons; sc_sysns = List.map bytes_of_hex (split_on ',' sysns) } in
+    run_system (fixes_of a b c d e) cc sc (List.map yev_of_s evs)
   | ["HDR"; ip; port; p] -> hex_of_bytes (dgram_hdr (bytes_of_hex ip, n_of_s port) (bytes_of_hex p))
   | ["SPLIT"; hx] ->
     (match split3 (bytes_of_hex hx) with
